@@ -67,7 +67,7 @@ def key_of(c, diag):
     """Identifies a kind of disagreement: the verb form and what TLC says differs (never an expected value)."""
     k = {"verb": c["v"], "opts": " ".join(c["o"]), "grouped": bool(c["g"]),
          "accs": ",".join((step_name if c["v"] == "step" else acc_name)(x) for x in c["a"])}
-    for f in ("why", "mismatch", "nullonly", "gap", "gapfirst", "lead", "short"):
+    for f in ("why", "mismatch", "nullonly", "gap", "gapfirst", "lead", "short", "multi"):
         if f in diag:
             k[f] = ",".join(sorted(diag[f])) if isinstance(diag[f], list) else diag[f]
     return k
